@@ -119,7 +119,7 @@ Proof.
   - exact H.
   - destruct v; cbn [has_type] in *; try contradiction; cbn [lim_string write_limits code_limits] in *; change (2 ^ 24) with 16777216; (split; [lia | apply H]).
   - destruct v; cbn [has_type] in *; try contradiction. cbn [lim_blob write_limits code_limits] in *. change (2 ^ 24) with 16777216. lia.
-  - exact H.
+  - destruct v; cbn [has_type] in *; try contradiction. cbn [lim_python write_limits code_limits] in *. change (2 ^ 24) with 16777216. lia.
   - exact H.
   - destruct v as [| | | | | | |e' l| |]; cbn [has_type] in *; try contradiction.
     destruct H as (-> & Hsz & Hall). split; [reflexivity|]. split; [exact Hsz|].
